@@ -145,22 +145,26 @@ PROPS = {
                 "caller designated for the d-th indeterminate by position or by name; plain array of shape poly.shape; TypeError "
                 "and nothing else for a name supplied twice or an unknown keyword. Enumerated: indeterminate tuples (q0,), (q0,q1) "
                 "and 10 ways of supplying the points. x**e is uninterpreted, so what is proved is binding, completeness of the term "
-                "sum, coefficient/exponent pairing, int() conversion of stored exponents and the shape. Polynomial substitution is "
+                "sum, coefficient/exponent pairing, int() conversion of stored exponents and the shape. Array-valued points are proved "
+                "too (3 binding patterns, argument shapes symbolic and broadcasting): the result has shape poly.shape + broadcast("
+                "argument shapes) and element (i ++ j) is  sum_t C(t,i) * prod_d a_d[j] ** E(t,d)  (numpy.outer + reshape as an "
+                "index-concatenation axiom, ufunc broadcasting). Polynomial substitution is "
                 "proved as well, for scalar (0-d) polynomial arguments, each indeterminate either given one or left standing for itself - "
                 "partial evaluation, also through a None placeholder - (7 binding patterns, D <= 2): the "
                 "result - a polynomial, or the plain array tonumpy gives when it comes out constant - has the shape of poly and the "
                 "value  sum_t C(t,i) * prod_d a_d ** E(t,d)  in the polynomial ring (ghost sum over PV, loop invariant with the first "
                 "iteration peeled, through the value-level contracts of power, multiply, add, clean_attributes and "
                 "align_indeterminants, all proved from their source; numpoly.outer(array, 0-d polynomial).reshape is assumed). "
-                "Array-valued points/arguments, numbers mixed with polynomial arguments, staged evaluation and machine-number "
+                "Polynomial arguments that are arrays, numbers mixed with polynomial arguments, staged evaluation and machine-number "
                 "kinds: bounded run-time checks (conc/checks_c02.py, exact oracle).",
-                trusted_base=COMMON_TRUSTED + ["numpy axioms: ones/zeros of shape (), scalar*array, outer+reshape for a 0-d second operand",
+                trusted_base=COMMON_TRUSTED + ["numpy axioms: ones/zeros, ufunc broadcasting, array ** integer element-wise, "
+                                               "outer(a, b).reshape(a.shape + b.shape)[i ++ j] == a[i] * b[j]",
                                                "assumed shape-only contract of numpoly.polynomial(number)"],
                 assumptions=["A1 (reals; x**e uninterpreted)", "machine integer arithmetic outside int64 is out of scope (numpy semantics)",
                              "D <= 2 and binding patterns enumerated",
                              "assumed: numpoly.outer(array, 0-d polynomial) reshaped to the array's shape multiplies element-wise; "
                              "B10 (a constant polynomial denotes the constant tonumpy returns)"],
-                not_decided=["array-valued points and arguments, numbers mixed with polynomial arguments, staged evaluation (bounded)",
+                not_decided=["array-valued polynomial arguments, numbers mixed with polynomial arguments, staged evaluation (bounded)",
                              "independence of the numeric type carrying an argument (bounded)"]),
     "C04": dict(
         level="other",
